@@ -23,6 +23,7 @@ let parse_op (w : string) : op =
   | 'P' -> PushBack (t, v 0)
   | 'Q' -> PushBackSelf (t, n 0)
   | 'E' -> EmplaceBack (t, v 0)
+  | 'G' -> EmplaceBackSelf (t, n 0)
   | 'I' -> Insert (t, n 0, List.map z_of_int (List.tl z))
   | 'R' -> Resize (t, n 0)
   | 'Z' -> Reserve (t, n 0)
